@@ -111,6 +111,28 @@ func (o *concObj) Held(r float64) string {
 func (o *concObj) Twice(s string) string { return o.ID + s + o.ID }
 func (o concObj) Val() string            { return "v" + o.ID }
 
+// cachingLoader: a race-free user loader that loads every template once and hands the same stick.Template to every later
+// (possibly concurrent) call - a Template is a description of a template, not a one-shot stream
+type cachingLoader struct {
+	mu    sync.Mutex
+	inner stick.Loader
+	cache map[string]stick.Template
+}
+
+func (l *cachingLoader) Load(name string) (stick.Template, error) {
+	l.mu.Lock()
+	defer l.mu.Unlock()
+	if t, ok := l.cache[name]; ok {
+		return t, nil
+	}
+	t, err := l.inner.Load(name)
+	if err != nil {
+		return nil, err
+	}
+	l.cache[name] = t
+	return t, nil
+}
+
 type concResult struct {
 	G     int    `json:"g"`
 	Round int    `json:"round"`
@@ -171,6 +193,7 @@ func init() {
 			Env    string `json:"env"`
 			Seed   int    `json:"seed"`
 			Loader string `json:"loader"` // "" = MemoryLoader, "fs" = FilesystemLoader
+			Cache  bool   `json:"cache"`  // the concurrent environment loads through a caching loader that re-serves Template values
 			Gate   bool   `json:"gate"`   // schedule: every caller of a round is inside Execute (three includes deep) at the same time
 		}
 		if err := json.Unmarshal(raw, &c); err != nil {
@@ -191,7 +214,12 @@ func init() {
 			}
 			loader = stick.NewFilesystemLoader(dir)
 		}
-		mk := func(n int) (*stick.Env, *barrier) {
+		concLoader := loader
+		if c.Cache {
+			// only the concurrent environment caches: the calls made alone load afresh, caching must not change a result
+			concLoader = &cachingLoader{inner: loader, cache: map[string]stick.Template{}}
+		}
+		mk := func(n int, loader stick.Loader) (*stick.Env, *barrier) {
 			bar := &barrier{n: n}
 			sharedList := append(make([]stick.Value, 0, 16), "home", "blog", "about")
 			sharedMap := map[string]stick.Value{"k": "K", "j": "J"}
@@ -234,7 +262,7 @@ func init() {
 		before, _ := raceReports()
 		// 1. the calls from N goroutines on one shared environment - FIRST, so that nothing the library keeps between
 		//    calls (caches, pools) has been warmed up by a sequential run
-		env, bar := mk(c.N)
+		env, bar := mk(c.N, concLoader)
 		results := make([][]concResult, c.N)
 		var wg sync.WaitGroup
 		start := make(chan struct{})
@@ -254,7 +282,7 @@ func init() {
 		// 2. every call alone, on another environment: the sequential results
 		alone := map[string]concResult{}
 		key := func(r concResult) string { return fmt.Sprintf("%d/%d", r.G, r.Round) }
-		seqEnv, seqBar := mk(1)
+		seqEnv, seqBar := mk(1, loader)
 		for g := 0; g < c.N; g++ {
 			for r := 0; r < c.Rounds; r++ {
 				tpl, api := pick(g, r)
